@@ -27,6 +27,9 @@ pub struct IoTrace {
     fail_at: unsafe extern "C" fn(c_long, c_int),
     pub set_write_hook: unsafe extern "C" fn(Option<extern "C" fn(*const c_char, usize)>),
     take_counts: unsafe extern "C" fn(*mut c_long, *mut c_long),
+    fail_accepts: unsafe extern "C" fn(c_long, c_int),
+    failed_accepts: unsafe extern "C" fn() -> c_long,
+    clock_shift: unsafe extern "C" fn(i64),
 }
 
 impl IoTrace {
@@ -50,8 +53,22 @@ impl IoTrace {
                 fail_at: std::mem::transmute(sym("iotrace_fail_at")?),
                 set_write_hook: std::mem::transmute(sym("iotrace_set_write_hook")?),
                 take_counts: std::mem::transmute(sym("iotrace_take_counts")?),
+                fail_accepts: std::mem::transmute(sym("iotrace_fail_accepts")?),
+                failed_accepts: std::mem::transmute(sym("iotrace_failed_accepts")?),
+                clock_shift: std::mem::transmute(sym("iotrace_clock_shift")?),
             })
         }
+    }
+    /// the next `n` calls of accept(2) fail with `errno`
+    pub fn fail_accepts(&self, n: i64, errno: i32) {
+        unsafe { (self.fail_accepts)(n as c_long, errno as c_int) }
+    }
+    pub fn failed_accepts(&self) -> i64 {
+        unsafe { (self.failed_accepts)() as i64 }
+    }
+    /// shift every later reading of the wall clock by `ns` nanoseconds (0 = the true time)
+    pub fn clock_shift(&self, ns: i64) {
+        unsafe { (self.clock_shift)(ns) }
     }
     pub fn set_dir(&self, dir: &Path) {
         let c = CString::new(dir.to_str().unwrap()).unwrap();
@@ -809,6 +826,17 @@ impl Store {
                 Some(match fs::File::create(&f) {
                     Ok(_) => "ok".into(),
                     Err(e) => format!("err {}", e),
+                })
+            }
+            ["clock", ms] => {
+                // the wall clock is stepped: from now on it reads `ms` milliseconds off the true time
+                let ms: i64 = ms.parse().ok()?;
+                Some(match &self.io {
+                    Some(io) => {
+                        io.clock_shift(ms * 1_000_000);
+                        "ok".into()
+                    }
+                    None => "no-iotrace".into(),
                 })
             }
             ["rmfile", name] => {
